@@ -196,7 +196,8 @@ def rand_desc(rng):
     kind = rng.choice('$$$><!')
     label = rng.choice(['', '', '', 'A', '1', 'a1', 'AB', '1A', 'b', '22'])
     r = rng.random()
-    sym = None if r < 0.58 else rng.choice('-==##') if r < 0.9 else '.'
+    # any of the six bond symbols may be the order of a descriptor (':' = 1.5, '$' = 4, '.' = 0)
+    sym = None if r < 0.55 else rng.choice('-==##') if r < 0.8 else rng.choice('.::$')
     return [kind, label, sym]
 
 
@@ -448,6 +449,10 @@ class C13(common.Prop):
             # witnesses of the two repaired classes (f3554b8, 0d0f450) and of the known defect class
             plain([C, R('1', '='), C, C, R('1')], {1: [D()]}),                       # C=1[$]CC1
             plain([C], {0: [D(sym='.')]}),                                           # C.[$]
+            plain([A('c')], {0: [D(sym=':')]}),                                      # c:[$]
+            plain([C, C, O], {0: [D('>', 'a1', ':')]}),                              # C:[>a1]CO
+            plain([A('c'), R('1'), A('c'), A('c'), A('c'), A('c'), A('c'), R('1')], {}, lead=[D(sym=':')]),   # [$]:c1ccccc1
+            plain([C, C], {1: [D('!', 'b', ':'), D('<', '', '$')]}, lead=[D('<', 'A', ':'), D('>')]),       # [<A]:[>]CC:[!b]$[<]
             plain([C, ['('], C, C, R('1', '='), [')'], C, C, R('1')], {5: [D()]}),   # C(CC=1)[$]CC1
             plain([K('#PEO'), ['M', 4]], {1: [D('>')]}, lead=[D('<')]),              # [<][#PEO]|4[>]
             # well-behaved relatives
